@@ -3,7 +3,7 @@ from legs import run_classified_leg
 
 PID = "C08"
 # the parser / operator part of C08 is stated in Properties/C07.v (theorems C08_*)
-COQ_FILES = ["Model/Base.v", "Model/Dqe.v", "Proofs/DqeProofs.v", "Properties/C07.v"]
+COQ_FILES = ["Model/Base.v", "Model/Dqe.v", "Proofs/DqeProofs.v", "Properties/C08.v"]
 RULES[PID] = ("c08-console: command lines derived from the console grammar (src/ui/command/parser/mod.rs): every keyword and short form "
               "(continue/run/step*/next/finish/bt/help/symbol/sharedlib/oracle/async/trigger/source/thread/frame/register/memory/break/watch/var/"
               "arg/call) with valid arguments, seeded blanks and, for every numeric argument (hex addresses, FILE:LINE, breakpoint / watchpoint / "
